@@ -1,4 +1,5 @@
 import IpcModel.Lemmas.RouterProof
+import IpcModel.GenRouter
 import IpcModel.Lemmas.RouterSysProof
 /-!
 # C17 — stopping a router, by shutdown or proxy drop, is clean and complete
@@ -134,5 +135,9 @@ example : (RSys.run RSys.legacy legacyCfg [.deliver 0, .thread 1, .thread 1]).ma
       !(st.threads 0).todo.isEmpty && !(st.threads 1).todo.isEmpty) = some true := by decide
 /-- the same schedule in the repaired system is not stuck: the router thread gets the mutex -/
 example : (RSys.run RSys.fixed legacyCfg [.deliver 0, .thread 1, .thread 1]).map (fun st => (RSys.step RSys.fixed st .router).isSome) = some true := by decide
+
+/-- the event loop of the real `Router::run` distinguishes exactly the four kinds of select result the model's `step` has
+(wake-up message, routed message, wake-up channel closed, routed channel closed) — regenerated from `src/router.rs` -/
+theorem C17_shape : Gen.routerRunArms = 4 := by decide
 
 end C17
